@@ -165,12 +165,15 @@ reg('C06', 'other',
     MACHINE + ' Float precision of huge values is not examined (the digit text is checked, the value only through the formatter).',
     T_VM, 'DESIGN.md §10.3')
 reg('C07', 'other',
-    [lexeval.rule_reject_inert, lexeval.rule_group_inert, builder.rule_fail_atomic, scanvm.rule_scanner_validator, scanvm.rule_validator_scanner, sentences.rule_spans_validate],
+    [lexeval.rule_reject_inert, lexeval.rule_group_inert, builder.rule_fail_atomic, scanvm.rule_scanner_validator, scanvm.rule_validator_scanner, sentences.rule_spans_validate, sentences.rule_numbers_after_linking],
     "A8b every lexicon word x builder-state x {apply, apply_decimal}: an accepted word issues exactly one builder operation, a rejected word issues none, "
     "writes no marker, does not freeze; B3 in every &mut self -> Result method of DigitString no write can be followed by an Err exit (a failed operation "
     "changes nothing); V07 the scanner's case table: spans hold accepted / linking words only and end on an accepted word, a word rejected inside a number "
     "is retried on an empty builder, at threshold 0 every number word is covered; exec_group and the scanner interpreted against the same abstract "
-    "language agree on every word script (each span validates to its text, each accepted script is one occurrence). " + MACHINE,
+    "language agree on every word script (each span validates to its text, each accepted script is one occurrence). S07 in the seven real languages: the "
+    "words of every non-decimal span validate to the span's text (incl. groups ending on the conjunction); every vocabulary word and sample phrase after a "
+    "free-standing conjunction / linking / separator word is found exactly as without it (a word answered Incomplete on an empty builder leaves nothing "
+    "behind). A8d a rejected group leaves the caller's builder untouched. " + MACHINE,
     'Scanner/validator agreement decided as: rejected words are inert (evaluation over the lexicon), builder operations fail without side effect (MIR '
     'reachability), and the two drivers agree on every script of an abstract language (case tables).',
     MACHINE + ' Agreement on the real vocabularies follows only to the extent that they behave like the abstract language classes.',
